@@ -16,7 +16,10 @@
  *   D: flags recip raw chunk [vdomsfile [localsfile]]   flags[0]='1' job is dying; raw = status byte + text from the spawner
  * output, one line per case (hex fields, "-" = empty):
  *   P <blob> <stripped> <text> <sleeps>
- *   I <id> <blob> <bouncefile> <ret> <q> <F> <T> <body> <left> <log> <ret2> <q2> <F2> <T2> <body2|=> <left2>
+ *   I <id> <blob> <bouncefile> <ret> <q> <F> <T> <body> <left> <log> <ret2> <q2> <F2> <T2> <body2|=> <left2> <log2> <sizes>
+ *      sizes = size of bounce/<id> after each addbounce() call, comma separated ("-" if none): the driver cuts the file
+ *      into the texts the real addbounce() calls appended and replays the whole life of the message (arrival, D reports,
+ *      appendBounce with these texts, the injection(s) with the real envelope/body, unlink) through the daemon monitor
  *   C <blob> <n> <sender0> {<F> <T>}*n
  *   D <blob> <appended>
  *   X <kind> <blob>         the implementation crashed / a sanitizer fired while running this case */
@@ -314,7 +317,12 @@ static int run_inject(const unsigned char *b, size_t n, unsigned long id, int us
   names(id);
   { hbuf t = {0}; hb_add(&t, "F", 1); hb_add(&t, fld[9], fln[9]); hb_add(&t, "", 1); vf_put(fn_info, t.p, t.n); free(t.p); }
   vf_put(fn_mess, fld[10], fln[10]);
-  for (i = 11; i + 1 < nfld; i += 2) addbounce(id, fstr[i], fstr[i + 1]);
+  static char sizes[MAXF * 24]; size_t szn = 0; sizes[0] = 0;
+  for (i = 11; i + 1 < nfld; i += 2) {
+    addbounce(id, fstr[i], fstr[i + 1]);
+    f = vf_get(fn_bounce, 0);
+    szn += snprintf(sizes + szn, sizeof sizes - szn, "%s%lu", szn ? "," : "", (unsigned long)((f && f->exists) ? f->d.n : 0));
+  }
   fprintf(h_out, "I %lu", id); hexf(b, n);
   f = vf_get(fn_bounce, 0);
   if (f && f->exists) hexf(f->d.p, f->d.n); else fputs(" -", h_out);
@@ -353,7 +361,9 @@ static int run_inject(const unsigned char *b, size_t n, unsigned long id, int us
   if (!qq_accepted) fputs(" -", h_out);
   else if (q1 && qq_body.n == body1.n && (body1.n == 0 || !memcmp(qq_body.p, body1.p, body1.n))) fputs(" =", h_out);
   else hexf(qq_body.p, qq_body.n);
-  fprintf(h_out, " %d\n", vf_exists(fn_bounce));
+  fprintf(h_out, " %d", vf_exists(fn_bounce));
+  hexf(logb.p, logb.n);
+  fprintf(h_out, " %s\n", szn ? sizes : "-");
   /* leave the first call's message in qq_* for the chain */
   hbuf_reset(&qq_body); hb_add(&qq_body, body1.p, body1.n);
   hbuf_reset(&qq_from); hb_add(&qq_from, f1.p, f1.n);
